@@ -9,13 +9,14 @@ CHECK = {
  'level': 'exploration',
  'technique': 'systematic phase-offset schedules of all daemon activities (real RunDaemon + REST handlers + metrics gather) in a virtual-time bubble, each execution checked by the happens-before race detector; reports attributed to top fan2go frames',
  'rule': 'one race-instrumented process per schedule: scenario {regulation, stall raises, initialisation in progress, fans without PWM read-back and nothing stored (serial and parallel start)} x (API period, metrics period) x API phase offset x metrics phase offset (grid of 4 offsets quick / 9 thorough); '
-         'three fans (two hwmon, one file) share function/pid/linear curves and one sensor; the API goroutine requests every list and item endpoint, the metrics goroutine gathers all collectors; each run covers start-up, '
-         'regulation cycles, RPM polls, stall raises and shutdown restoration. A report is attributed to the racy SITE of each access: top non-harness fan2go function plus the text of the source statement (independent of line numbers and closure numbering); every site so named is a violation unless listed. '
+         'four fans (two hwmon, two file; two of them with the built-in default control algorithm, two with direct) share function/pid/linear curves and one sensor; the API goroutine requests every list and item endpoint, the metrics goroutine gathers all collectors; each run covers start-up, '
+         'regulation cycles, RPM polls, stall raises and shutdown restoration. A report is attributed to the racy SITE of each access: top non-harness fan2go function plus the text of the source statement (independent of line numbers and closure numbering), and for helpers in internal/util the first caller outside that package for the current access; every site so named is a violation unless listed. '
          'distinct_nontrivial = distinct unordered frame pairs observed.',
  'assumptions': ['Go race detector (happens-before; reports a race whenever two conflicting accesses are not ordered by the program\'s own synchronisation, whether or not they overlapped in this run)',
                  'device files are real tmpfs files; the harness adds no locks around them (no harness-made happens-before edges)',
-                 'gosensors stand-in, vsignal stand-in'],
+                 'gosensors stand-in, vsignal stand-in',
+                 'log output is discarded and the global logging mutex is a no-op in the race build: log lines are not synchronisation fan2go may rely on, and both would order almost any two accesses for the detector'],
  'level_text': 'finite grid of schedules, each one decided by a happens-before oracle (not by observing an actual collision); known racy access sites are listed individually, any new site fails the check',
- 'level_note': 'the race detector keeps a bounded access history, so an individual report may be missed in one run; the set of racy FUNCTIONS is what is compared, which is stable across runs; goroutine pre-emption inside a handler is decided by the happens-before relation, not enumerated',
+ 'level_note': 'the race detector keeps a bounded access history, so an individual report may be missed in one run; the set of racy SITES is what is compared, which is stable across runs; accesses that are separated by bolt database sessions of both goroutines are ordered in that execution through the process-global mutex inside syscall.Mmap/Munmap and are then not reported (the verdict is about the enumerated executions); goroutine pre-emption inside a handler is decided by the happens-before relation, not enumerated',
  'runs': [{'pkg': 'internal', 'test': 'TestVX_C20', 'race': True, 'shards_quick': 4, 'shards_thorough': 4, 'gomaxprocs': '4'}],
 }
